@@ -1,35 +1,26 @@
 package drivers
 
 import (
+	"encoding/hex"
 	"fmt"
 
-	"github.com/gr33nbl00d/caddy-revocation-validator/config"
-
-	"verif/h/rt/vsched"
 	"verif/h/world"
 )
 
 func init() { registry["DBG"] = runDbg }
 
 func runDbg(tier string, args []string) int {
-	c := newC13cast()
-	res := vsched.Run(vsched.Config{Chooser: vsched.SeqChooser{}, Trace: true}, func() {
-		ResetGlobals()
-		w := NewCW(CWOpt{SigMode: config.SignatureValidationModeVerify})
-		w.Net.Serve(urlA, "v1", c.v1)
-		fmt.Println("provision:", w.Provision())
-		vsched.Drain()
-		ch := world.Chain(c.L1, c.p.CA, c.p.Root)
-		v := w.Lookup(c.L1, ch)
-		fmt.Printf("L1: %s err=%q panic=%q\n", v, v.Err, v.Panic)
-		v = w.Lookup(c.L2, world.Chain(c.L2, c.p.CA, c.p.Root))
-		fmt.Printf("L2: %s err=%q\n", v, v.Err)
-		fmt.Printf("entries: %+v\n", w.Repo().VerifEntries())
-		fmt.Printf("hits: %+v\n", w.Net.Hits)
-	})
-	fmt.Println(res.Verdict, res.Detail)
-	for _, t := range res.Trace {
-		fmt.Println("  ", t)
+	for _, x := range []struct {
+		a   world.SigAlg
+		bit int
+	}{{world.SHA256EC, 1616}, {world.SHA256RSA, 1664}} {
+		base := c04Case{Alg: x.a, Signer: 0, AKI: 1, Path: "first-load", Flip: -1}
+		doc, _, _, _, _, _ := c04Doc(base)
+		s, e, end := c04Regions(doc)
+		fmt.Println("len", len(doc), "tbs", s, e, end, "byte", x.bit/8, "bit", x.bit%8)
+		lo := x.bit/8 - 12
+		fmt.Println(hex.EncodeToString(doc[lo : x.bit/8+12]))
+		fmt.Println(hex.EncodeToString(doc[e:]))
 	}
 	return 0
 }
